@@ -682,7 +682,10 @@ def expected_shape(tree, path):
 
 
 # ============================================================================ implementation driver
-def run_impl(fh, paths):
+_KEEP = []
+
+
+def run_impl(fh, paths, sibling=None):
     from dissect.hypervisor.descriptor.hyperv import HyperVFile
     from dissect.hypervisor.descriptor.c_hyperv import KeyDataType
     out = {}
@@ -690,6 +693,14 @@ def run_impl(fh, paths):
         hf = HyperVFile(fh)
     except Exception as e:  # noqa: BLE001
         return {"open": [type(e).__name__, str(e)[:120]]}
+    if sibling is not None:
+        # another file of the same layout (tables and file objects at the same offsets, other stored bytes) is opened and
+        # decoded while this one is open and not yet decoded: what is decoded below is this file's content
+        try:
+            other = HyperVFile(sibling)
+            _KEEP[:] = [other, other.as_dict()]
+        except Exception:  # noqa: BLE001
+            pass
     out["open"] = None
     out["first"] = hf.header is hf.headers[0]
     out["version"] = int(hf.version)
@@ -902,7 +913,14 @@ class TreeSuite(Suite):
         return [gen_case(rng, tier) for _ in range(n)]
 
     def impl(self, case):
-        return run_impl(open_sparse(case), case["paths"])
+        twin = copy.deepcopy(case)
+        for b in twin["blobs"]:
+            b["data"] = bytes(x ^ 0x5A for x in bytes.fromhex(b["data"])).hex()
+        try:
+            sib = open_sparse(twin)
+        except Exception:  # noqa: BLE001
+            sib = None
+        return run_impl(open_sparse(case), case["paths"], sibling=sib)
 
     def coq_term(self, case):
         size, chunks = build_chunks(case)
